@@ -901,4 +901,156 @@ theorem loop_value (k : LoopCfg) (hk : StringLike k) : ∀ (fuel : Nat) (rem acc
         cases hs with
         | eoi => exact ⟨rem, by simp [pushStr], fun _ _ => rfl⟩
 
+/-! ## the regex against Rust's reading of a line continuation -/
+
+/-- How the matcher (`stripGo`), the scanner over what the matcher has emitted (`vo`) and the scanner over
+the original text (`vi`) stand to each other between two characters. -/
+inductive StripRel : ReState → ValState → ValState → Prop
+  | start (v : ValState) : StripRel .start v v
+  | even (v : ValState) : v ≠ .esc → StripRel .even v v
+  | odd (v : ValState) : v ≠ .esc → StripRel .odd v .esc
+  | space (v : ValState) : v ≠ .esc → StripRel .space v .skip
+
+theorem isContWs_backslash : isContWs '\\' = false := by decide
+theorem isContWs_nl : isContWs '\n' = true := by decide
+
+/-- Stripping the continuations the regex finds does not change the value, as long as there is no bare
+carriage return (the regex takes backslash-CR for a continuation, Rust does not). -/
+theorem strip_sim : ∀ (s : List Char), (∀ c ∈ s, c ≠ '\r') → ∀ (rs : ReState) (vo vi : ValState),
+    StripRel rs vo vi → strValueGo vo (stripGo rs s) = strValueGo vi s
+  | [], _, rs, vo, vi, hr => by
+    cases hr with
+    | start _ => cases vo <;> rfl
+    | even _ _ => cases vo <;> rfl
+    | odd _ hv => cases vo <;> first | rfl | exact absurd rfl hv
+    | space _ hv => cases vo <;> first | rfl | exact absurd rfl hv
+  | c :: r, hcr, rs, vo, vi, hr => by
+    have hc : c ≠ '\r' := hcr c (by simp)
+    have hr' : ∀ d ∈ r, d ≠ '\r' := fun d hd => hcr d (by simp [hd])
+    have ih := fun rs vo vi h => strip_sim r hr' rs vo vi h
+    by_cases h1 : c = '\\'
+    · subst h1
+      cases hr with
+      | start _ =>
+        simp only [stripGo, beq_self_eq_true, if_true]
+        cases vo with
+        | normal => simp only [strValueGo, beq_self_eq_true, if_true]; exact ih _ _ _ (.start _)
+        | esc =>
+          have : ('\\' == '\n') = false := by decide
+          simp only [strValueGo, this, Bool.false_eq_true, if_false]
+          rw [ih _ _ _ (.start _)]
+        | skip =>
+          simp only [strValueGo, isContWs_backslash, Bool.false_eq_true, if_false, beq_self_eq_true, if_true]
+          exact ih _ _ _ (.start _)
+      | even _ hv =>
+        simp only [stripGo, beq_self_eq_true, if_true]
+        cases vo with
+        | normal => simp only [strValueGo, beq_self_eq_true, if_true]; exact ih _ _ _ (.odd _ hv)
+        | esc => exact absurd rfl hv
+        | skip =>
+          simp only [strValueGo, isContWs_backslash, Bool.false_eq_true, if_false, beq_self_eq_true, if_true]
+          exact ih _ _ _ (.odd _ hv)
+      | odd _ hv =>
+        have h2 : ('\\' == '\n') = false := by decide
+        simp only [stripGo, beq_self_eq_true, if_true]
+        cases vo with
+        | normal =>
+          simp only [strValueGo, beq_self_eq_true, if_true, h2, Bool.false_eq_true, if_false]
+          rw [ih _ _ _ (.even _ (by simp))]
+        | esc => exact absurd rfl hv
+        | skip =>
+          simp only [strValueGo, isContWs_backslash, Bool.false_eq_true, if_false, beq_self_eq_true, if_true, h2]
+          rw [ih _ _ _ (.even _ (by simp))]
+      | space _ hv =>
+        simp only [stripGo, isContWs_backslash, Bool.false_eq_true, if_false, beq_self_eq_true, if_true]
+        cases vo with
+        | normal =>
+          simp only [strValueGo, beq_self_eq_true, if_true, isContWs_backslash, Bool.false_eq_true, if_false]
+          exact ih _ _ _ (.start _)
+        | esc => exact absurd rfl hv
+        | skip =>
+          simp only [strValueGo, isContWs_backslash, Bool.false_eq_true, if_false, beq_self_eq_true, if_true]
+          exact ih _ _ _ (.start _)
+    · have hb : (c == '\\') = false := by simpa using h1
+      by_cases h2 : c = '\n'
+      · subst h2
+        have hnr : ('\n' == '\r') = false := by decide
+        cases hr with
+        | start _ =>
+          simp only [stripGo, hb, Bool.false_eq_true, if_false]
+          cases vo with
+          | normal => simp only [strValueGo, hb, Bool.false_eq_true, if_false]; rw [ih _ _ _ (.even _ (by simp))]
+          | esc => simp only [strValueGo, beq_self_eq_true, if_true]; exact ih _ _ _ (.even _ (by simp))
+          | skip => simp only [strValueGo, isContWs_nl, if_true]; exact ih _ _ _ (.even _ (by simp))
+        | even _ hv =>
+          simp only [stripGo, hb, Bool.false_eq_true, if_false]
+          cases vo with
+          | normal => simp only [strValueGo, hb, Bool.false_eq_true, if_false]; rw [ih _ _ _ (.even _ (by simp))]
+          | esc => exact absurd rfl hv
+          | skip => simp only [strValueGo, isContWs_nl, if_true]; exact ih _ _ _ (.even _ (by simp))
+        | odd _ hv =>
+          simp only [stripGo, hb, Bool.false_eq_true, if_false, beq_self_eq_true, Bool.true_or, if_true]
+          simp only [strValueGo, beq_self_eq_true, if_true]
+          exact ih _ _ _ (.space _ hv)
+        | space _ hv =>
+          simp only [stripGo, isContWs_nl, if_true]
+          simp only [strValueGo, isContWs_nl, if_true]
+          exact ih _ _ _ (.space _ hv)
+      · have hn : (c == '\n') = false := by simpa using h2
+        have hcr' : (c == '\r') = false := by simpa using hc
+        cases hr with
+        | start _ =>
+          simp only [stripGo, hb, Bool.false_eq_true, if_false]
+          cases vo with
+          | normal => simp only [strValueGo, hb, Bool.false_eq_true, if_false]; rw [ih _ _ _ (.even _ (by simp))]
+          | esc =>
+            simp only [strValueGo, hn, Bool.false_eq_true, if_false]
+            rw [ih _ _ _ (.even _ (by simp))]
+          | skip =>
+            cases hw : isContWs c with
+            | true => simp only [strValueGo, hw, if_true]; exact ih _ _ _ (.even _ (by simp))
+            | false =>
+              simp only [strValueGo, hw, hb, Bool.false_eq_true, if_false]
+              rw [ih _ _ _ (.even _ (by simp))]
+        | even _ hv =>
+          simp only [stripGo, hb, Bool.false_eq_true, if_false]
+          cases vo with
+          | normal => simp only [strValueGo, hb, Bool.false_eq_true, if_false]; rw [ih _ _ _ (.even _ (by simp))]
+          | esc => exact absurd rfl hv
+          | skip =>
+            cases hw : isContWs c with
+            | true => simp only [strValueGo, hw, if_true]; exact ih _ _ _ (.even _ (by simp))
+            | false =>
+              simp only [strValueGo, hw, hb, Bool.false_eq_true, if_false]
+              rw [ih _ _ _ (.even _ (by simp))]
+        | odd _ hv =>
+          simp only [stripGo, hb, hn, hcr', Bool.false_eq_true, if_false, Bool.or_self]
+          cases vo with
+          | normal =>
+            simp only [strValueGo, beq_self_eq_true, if_true, hn, Bool.false_eq_true, if_false]
+            rw [ih _ _ _ (.even _ (by simp))]
+          | esc => exact absurd rfl hv
+          | skip =>
+            simp only [strValueGo, isContWs_backslash, beq_self_eq_true, if_true, hn, Bool.false_eq_true, if_false]
+            rw [ih _ _ _ (.even _ (by simp))]
+        | space _ hv =>
+          cases hw : isContWs c with
+          | true =>
+            simp only [stripGo, hw, if_true]
+            simp only [strValueGo, hw, if_true]
+            exact ih _ _ _ (.space _ hv)
+          | false =>
+            simp only [stripGo, hw, hb, Bool.false_eq_true, if_false]
+            cases vo with
+            | normal =>
+              simp only [strValueGo, hb, hw, Bool.false_eq_true, if_false]
+              rw [ih _ _ _ (.even _ (by simp))]
+            | esc => exact absurd rfl hv
+            | skip =>
+              simp only [strValueGo, hb, hw, Bool.false_eq_true, if_false]
+              rw [ih _ _ _ (.even _ (by simp))]
+
+theorem strValue_strip (s : List Char) (h : ∀ c ∈ s, c ≠ '\r') : strValue (stripLineBreaks s) = strValue s :=
+  strip_sim s h .start .normal .normal (.start _)
+
 end RF.Lemmas.StringFmt
